@@ -138,7 +138,9 @@ def census():
 CHAIN_VARIANTS = ["first_mul", "second_mul", "second_add", "alternating", "unary", "matmul_right", "matmul_left",
                   "addmm_first", "addmm_second", "addmm_third", "concat_second", "concat_first", "stack_second", "tensor_scalar_mix"]
 DIAMOND_VARIANTS = ["const_w", "param_w", "triple", "matmul"]
-LOOP_MODES = [("no_grad", 300), ("plain", 300), ("concat_param", 300), ("concat_traj", 80), ("stack_param", 300), ("unbind_param", 300)]
+LOOP_MODES = [("no_grad", 300), ("plain", 300), ("concat_param", 300), ("concat_traj", 80), ("stack_param", 300), ("unbind_param", 300),
+              ("ctx_nested_distinct", 200), ("ctx_shared_reentered", 200), ("ctx_nograd_in_retain", 200), ("ctx_retain_in_nograd", 200),
+              ("ctx_exception_inside", 200), ("ctx_shared_reentered_exception", 200)]
 
 
 def chain_ok(r):
@@ -234,14 +236,15 @@ def run(ctx):
     for mode, it in LOOP_MODES:
         r = R[("loop", mode)]
         live.append(r)
-        good = ("earlier_operands_alive" in r and r["earlier_operands_alive"] <= 1 and r["children_empty"] and r["results_untracked"])
+        good = ("earlier_operands_alive" in r and r["earlier_operands_alive"] <= 1 and r["children_empty"] and r["results_untracked"]
+                and r.get("tracking_off_inside_block", True) and r.get("modes_restored_after", True))
         if not good:
             mism.append(r)
             ctx.witness(SITE_MEM, "untracked-liveness", {"iterations": it, "mode": mode,
                         "program": "update loop of %d untracked steps, mode %r (lib/engine_probe.py: untracked); weakref to every earlier iterate; gc.collect()" % (it, mode)},
                         "operands of untracked results are collectable (_children == (), grad_fn None), memory bounded", r)
     live.append(R[("loop", "tracked")])
-    ctx.tie("untracked update loops (incl. concat/stack/unbind with a parameter under no_grad): earlier iterates are collected", "correspondence",
+    ctx.tie("untracked update loops (concat/stack/unbind with a parameter; nested / shared re-entered / mixed context managers; exceptions): earlier iterates are collected", "correspondence",
             len(LOOP_MODES), len(LOOP_MODES), mism,
             note="weak references + gc.collect(); control (tracked loop keeps its history): " + json.dumps(live)[:700])
     r = R[("catalog",)]
@@ -275,7 +278,8 @@ def replay(ctx, data):
     if "iterations" in inp:
         r = probe(["untracked", inp["iterations"], inp["mode"]])
         print(r)
-        return 0 if (r.get("earlier_operands_alive", 99) <= 1 and r.get("children_empty") and r.get("results_untracked")) else 1
+        return 0 if (r.get("earlier_operands_alive", 99) <= 1 and r.get("children_empty") and r.get("results_untracked")
+                     and r.get("tracking_off_inside_block", True) and r.get("modes_restored_after", True)) else 1
     if "catalog_op" in inp:
         r = probe(["catalog"])
         bad = [b for b in r.get("bad", [r]) if b.get("op") == inp["catalog_op"]]
